@@ -328,6 +328,12 @@ def run(ck, facts, tier):
         ck.check(s6, "PPSpline::eq", {"k", "n", "t", "c"} <= flds, "PPSpline equality ignores field(s) %s" % sorted({"k", "n", "t", "c"} - flds),
                  "%s:%d" % (sp[0]["file"], sp[0]["line"]), sample="compares " + ",".join(sorted(flds)))
 
+    # an FX market is stored as its quotes only: after update() the stored quotes must be the updated ones (C10 R10.4: every field is replaced by the rebuilt
+    # market's), or a saved market reloads with the old rates
+    from rules import c10
+    nd_, tb_ = list(ck.not_decided), list(ck.trusted)
+    c10.run(ck, facts, tier, only={"R10.4"})
+    ck.not_decided[:], ck.trusted[:] = nd_, tb_
     # S16.9: loaders accept every well-shaped object (the converse of C20's R20.6, decided by the same path analysis)
     from rules import c20
     with ck.restrict({"S16.9"}):
